@@ -149,9 +149,13 @@ check("C12", "rocq-frame", "proof",
       "Theorems in coq/frame/Properties/C12.v, for frames of every length and every message value: a frame built by to_view_bytes is accepted "
       "and delivers the value sent; one exchange returns exactly the handler's reply or its Status (code, message); every single-bit (indeed "
       "single-byte) corruption, every mismatched trailer and every buffer shorter than size_of::<Archived<T>>()+4 is refused, never cast out of "
-      "bounds, and runs no handler. Tied to rkyv_tooling/view.rs, mod.rs and the request/reply path by differential execution of six message "
-      "types (exhaustive flips/truncations per frame; every value also read through a clone of its view) and in-process RPC exchanges (hx-frame, release and debug builds).",
-      "Trusted: Coq kernel, the hand-written model Crc.v/Frame.v, ExtrOcamlBasic plus the OCaml driver, the Rust executor. rkyv's serializer "
+      "bounds, and runs no handler; and for every nested sequence of scratch-space requests and releases (any depth, width and block sizes) the "
+      "serializer's three-tier scratch space (Scratch.v, model of LazyScratch) refuses nothing, never panics and leaves nothing allocated. "
+      "Tied to rkyv_tooling/view.rs, mod.rs, scratch.rs and the request/reply path by differential execution of seven message "
+      "types (exhaustive flips/truncations per frame; every value also read through a clone of its view), in-process RPC exchanges (hx-frame) "
+      "and request/release traces on the real LazyScratch (hx-scratch), release and debug builds.",
+      "Trusted: Coq kernel, the hand-written models Crc.v/Frame.v/Scratch.v, ExtrOcamlBasic plus the OCaml driver, the Rust executors. That rkyv's "
+      "serializer uses the scratch space in nested order is read from its source, not proved. rkyv's serializer "
       "and view are a hypothesis (round-trip law), validated by execution only; crc32fast is modelled as bit-serial CRC-32; HTTP/2 framing is "
       "replaced by the in-process transport, which re-creates body chunking (pieces of 1/3/16/1000 bytes without a length hint) so that "
       "the real reassembly code (to_aligned) runs.")
@@ -244,7 +248,7 @@ def main():
             "enable": "the harness workspaces (/verif/harness, /verif/harness-sim) depend on the /repo crates with features=[\"verif-hooks\"]; "
                       "no member of /repo's own workspace enables the feature",
             "baseline_off_cmd": "cd /repo && cargo nextest run --workspace --no-fail-fast --test-threads 8 --offline || cargo test --workspace --no-fail-fast --offline",
-            "source_commits": ["3d14cf9", "445d25e", "d0bd1e4", "a802df6", "a7b3111", "265652d", "cf50e9b"],
+            "source_commits": ["3d14cf9", "445d25e", "d0bd1e4", "a802df6", "a7b3111", "265652d", "cf50e9b", "493b070"],
             "add_only": True,
         },
         "engines": [],
